@@ -1,5 +1,6 @@
 pub mod checks;
 pub mod family;
 pub mod model_ser;
+pub mod lazyhelp;
 pub mod sx;
 pub use vbase::{engine, gens, refjson};
